@@ -45,7 +45,7 @@ func (o MOp) String() string {
 		}
 	case "pkt":
 		s += "(" + o.Pkt + ")"
-	case "addmany", "rmmany":
+	case "addmany", "rmmany", "churn":
 		s += fmt.Sprintf("(%d)", o.N)
 	}
 	return s
@@ -58,6 +58,7 @@ type RecWriter struct {
 	FailAt   int  // index of the Write call that fails (-1 = never)
 	Perm     bool // permanent failure from FailAt on
 	Partial  bool // a failing Write accepts the first half of its bytes before failing (n > 0 with an error)
+	OnWrite  func(i int) // called at the start of every Write (the writer looks at the caller's buffers while the Muxer is inside a call)
 	FailErr  error
 	Accepted int // bytes accepted in total
 	FailedIn int // number of failures injected
@@ -68,6 +69,9 @@ func NewRecWriter() *RecWriter { return &RecWriter{FailAt: -1} }
 func (w *RecWriter) Write(p []byte) (int, error) {
 	i := w.Writes
 	w.Writes++
+	if w.OnWrite != nil {
+		w.OnWrite(i)
+	}
 	if w.FailAt >= 0 && (i == w.FailAt || (w.Perm && i > w.FailAt)) {
 		w.FailedIn++
 		if w.Partial {
@@ -96,6 +100,7 @@ type MCall struct {
 	AF      *astits.PacketAdaptationField
 	WFrom   int // Write-call index range of this call
 	WTo     int
+	Churned []uint16 // "churn": the automatically assigned PIDs, each removed again at once
 }
 
 // MuxH is a fresh Muxer under test plus its trace.
@@ -118,6 +123,11 @@ type MuxH struct {
 func NewMuxH(period int) *MuxH {
 	w := NewRecWriter()
 	h := &MuxH{W: w, Period: period}
+	if period == 0 {
+		// no option: the documented default of 40 WriteData calls applies
+		h.M = astits.NewMuxer(context.Background(), w)
+		return h
+	}
 	h.M = astits.NewMuxer(context.Background(), w, astits.MuxerOptTablesRetransmitPeriod(period))
 	return h
 }
@@ -364,6 +374,27 @@ func (h *MuxH) Do(op MOp, seed int64) *MCall {
 			if len(after) == len(before)+1 {
 				c.PID = after[len(after)-1]
 				h.Auto = append(h.Auto, c.PID)
+			}
+		}
+	case "churn":
+		// N times: add a stream with an automatically assigned PID and remove it again (the assignment cursor
+		// moves on, the configuration stays small)
+		for i := 0; i < op.N; i++ {
+			before := muxPIDs(h.M)
+			if err := h.M.AddElementaryStream(astits.PMTElementaryStream{StreamType: astits.StreamTypeAACAudio}); err != nil {
+				c.Err = err
+				break
+			}
+			after := muxPIDs(h.M)
+			if len(after) != len(before)+1 {
+				c.Churned = append(c.Churned, 0xffff) // no new PID appeared: the monitor reports it
+				continue
+			}
+			pid := after[len(after)-1]
+			c.Churned = append(c.Churned, pid)
+			if err := h.M.RemoveElementaryStream(pid); err != nil {
+				c.Err = err
+				break
 			}
 		}
 	case "rm":
